@@ -105,6 +105,7 @@ theorem apply_keepsMain (fs : FS) (o : FsOp) (ho : keepsMain o = true) (h : fs.m
   | close p => simpa [FS.apply] using h
   | remove p => cases p <;> simp_all [keepsMain, FS.apply, FS.set]
   | rename a b => simp [keepsMain] at ho
+  | truncate p n => cases p <;> simp [FS.apply, FS.get, FS.set] <;> split <;> simp_all [FS.set]
 
 theorem Safe.of_keepsMain (ops : List FsOp) (h : ∀ o ∈ ops, keepsMain o = true) : Safe ops := by
   induction ops with
@@ -178,6 +179,7 @@ theorem tmp_after_front (fs : FS) (front : List FsOp) (h : ∀ o ∈ front, keep
     | close p => simpa [FS.apply] using ht
     | remove p => cases p <;> simp_all [keepsMain, FS.apply, FS.set]
     | rename a b => simp [keepsMain] at ho
+    | truncate p n => cases p <;> simp [FS.apply, FS.get, FS.set] <;> split <;> simp_all [FS.set]
 
 theorem safe_compact (ord : Order) (s : Snap) : Safe (compact ord s).2 := by
   intro fs h
@@ -283,5 +285,164 @@ theorem safe_shutdown (ord : Order) (s : Snap) (clk : Nat) : Safe (shutdown ord 
   exact Safe.append (safe_updateClock ord s clk)
     (Safe.append (Safe.of_keepsMain _ (keepsMain_flushOps _ _))
       (Safe.of_keepsMain _ (by intro o ho; simp at ho; rcases ho with rfl | rfl <;> rfl)))
+
+end SerfProofs.Snapshot
+
+namespace SerfProofs.Snapshot
+open SerfModel SerfModel.Snapshot
+
+/-! ### what is on disk at every crash point of a compaction -/
+
+/-- operations on `path.compact` only -/
+def tmpOnly : FsOp → Bool
+  | .openTrunc .tmp => true
+  | .write .tmp _ => true
+  | .flush .tmp => true
+  | .sync .tmp => true
+  | .close .tmp => true
+  | _ => false
+
+theorem apply_tmpOnly_main (fs : FS) (o : FsOp) (h : tmpOnly o = true) : (fs.apply o).main = fs.main := by
+  cases o with
+  | openTrunc p => cases p <;> simp_all [tmpOnly, FS.apply, FS.set]
+  | write p d => cases p <;> simp_all [tmpOnly, FS.apply, FS.get, FS.set] <;> split <;> simp_all [FS.set]
+  | flush p => rfl
+  | sync p => rfl
+  | close p => rfl
+  | openAppend p => simp [tmpOnly] at h
+  | remove p => simp [tmpOnly] at h
+  | rename a b => simp [tmpOnly] at h
+  | truncate p n => simp [tmpOnly] at h
+
+theorem applyAll_tmpOnly_main (ops : List FsOp) (h : ∀ o ∈ ops, tmpOnly o = true) : ∀ fs : FS,
+    (fs.applyAll ops).main = fs.main := by
+  induction ops with
+  | nil => intro fs; rfl
+  | cons o t ih =>
+    intro fs
+    rw [applyAll_cons, ih (fun x hx => h x (List.mem_cons_of_mem _ hx)), apply_tmpOnly_main fs o (h o List.mem_cons_self)]
+
+/-- the temp-file phase of `compact` -/
+def compactTmpOps (ord : Order) (s : Snap) : List FsOp :=
+  [.openTrunc .tmp] ++ (bufWriteAll [] (compactLines ord s)).2.map (.write .tmp) ++
+    flushOps .tmp (bufWriteAll [] (compactLines ord s)).1 ++ [.sync .tmp, .close .tmp]
+
+theorem compactTmpOps_tmpOnly (ord : Order) (s : Snap) : ∀ o ∈ compactTmpOps ord s, tmpOnly o = true := by
+  intro o ho
+  simp only [compactTmpOps, List.mem_append, List.mem_cons, List.not_mem_nil, or_false, List.mem_map] at ho
+  rcases ho with ((rfl | ⟨w, _, rfl⟩) | ho) | rfl | rfl
+  · rfl
+  · rfl
+  · unfold flushOps at ho; split at ho <;> simp at ho <;> rcases ho with rfl | rfl <;> rfl
+  · rfl
+  · rfl
+
+theorem compactTmpOps_result (ord : Order) (s : Snap) (fs : FS) :
+    (fs.applyAll (compactTmpOps ord s)).tmp = some (compactLines ord s).flatten ∧
+    (fs.applyAll (compactTmpOps ord s)).main = fs.main := by
+  refine ⟨?_, applyAll_tmpOnly_main _ (compactTmpOps_tmpOnly ord s) fs⟩
+  have hc := bufWriteAll_concat (compactLines ord s) []
+  simp only [compactTmpOps]
+  rw [applyAll_append, applyAll_append, applyAll_append]
+  have h1 : fs.applyAll [.openTrunc .tmp] = { fs with tmp := some [] } := by simp [FS.applyAll, FS.apply, FS.set]
+  rw [h1, applyAll_writes_tmp _ _ [] rfl, applyAll_flush_tmp _ ([] ++ (bufWriteAll [] (compactLines ord s)).2.flatten) _ rfl]
+  simp only [List.nil_append] at hc ⊢
+  rw [hc]
+  rfl
+
+theorem compact_ops_eq' (ord : Order) (s : Snap) :
+    (compact ord s).2 = compactTmpOps ord s ++
+      (flushOps .main s.buf ++ [.close .main, .remove .main, .rename .tmp .main, .openAppend .main]) := by
+  simp [compact, compactTmpOps, List.append_assoc]
+
+/-- what a restart reads (with the recovery rename): the snapshot file, or `path.compact` when it is missing -/
+def recoverFile (fs : FS) : Bytes := (if fs.main.isNone then fs.tmp else fs.main).getD []
+
+/-- **Every crash point of a compaction**: the restart reads the old file (with or without
+the flushed buffer) or the complete compacted file — also in the remove..rename window. -/
+theorem compact_crash_points (ord : Order) (s : Snap) (fs : FS) (d : Bytes) (hd : fs.main = some d) (k : Nat) :
+    recoverFile (fs.applyAll ((compact ord s).2.take k)) = d ∨
+    recoverFile (fs.applyAll ((compact ord s).2.take k)) = d ++ s.buf ∨
+    recoverFile (fs.applyAll ((compact ord s).2.take k)) = (compactLines ord s).flatten := by
+  rw [compact_ops_eq', List.take_append]
+  by_cases hk : k ≤ (compactTmpOps ord s).length
+  · have : k - (compactTmpOps ord s).length = 0 := by omega
+    rw [this, List.take_zero, List.append_nil]
+    left
+    have hm : (fs.applyAll ((compactTmpOps ord s).take k)).main = fs.main :=
+      applyAll_tmpOnly_main _ (fun o ho => compactTmpOps_tmpOnly ord s o (List.mem_of_mem_take ho)) fs
+    simp [recoverFile, hm, hd]
+  · rw [List.take_of_length_le (by omega), applyAll_append]
+    obtain ⟨ht, hm⟩ := compactTmpOps_result ord s fs
+    generalize fs.applyAll (compactTmpOps ord s) = g at ht hm ⊢
+    rw [hd] at hm
+    generalize k - (compactTmpOps ord s).length = j
+    have hg : g = { main := some d, tmp := some (compactLines ord s).flatten } := by cases g; simp_all
+    subst hg
+    unfold flushOps
+    by_cases hb : s.buf = []
+    · simp only [hb, ↓reduceIte, List.append_nil]
+      match j with
+      | 0 => left; simp [recoverFile, FS.applyAll]
+      | 1 => left; simp [recoverFile, FS.applyAll, FS.apply]
+      | 2 => left; simp [recoverFile, FS.applyAll, FS.apply]
+      | 3 => right; right; simp [recoverFile, FS.applyAll, FS.apply, FS.set]
+      | 4 => right; right; simp [recoverFile, FS.applyAll, FS.apply, FS.set, FS.get]
+      | n + 5 => right; right; simp [recoverFile, FS.applyAll, FS.apply, FS.set, FS.get]
+    · simp only [hb, ↓reduceIte]
+      match j with
+      | 0 => left; simp [recoverFile, FS.applyAll]
+      | 1 => left; simp [recoverFile, FS.applyAll, FS.apply]
+      | 2 => right; left; simp [recoverFile, FS.applyAll, FS.apply, FS.get, FS.set]
+      | 3 => right; left; simp [recoverFile, FS.applyAll, FS.apply, FS.get, FS.set]
+      | 4 => right; right; simp [recoverFile, FS.applyAll, FS.apply, FS.set, FS.get]
+      | 5 => right; right; simp [recoverFile, FS.applyAll, FS.apply, FS.set, FS.get]
+      | n + 6 => right; right; simp [recoverFile, FS.applyAll, FS.apply, FS.set, FS.get]
+
+theorem recover_eq_recoverFile (rj : Bool) (fs : FS) : recover rj fs = replay rj (recoverFile fs) := rfl
+
+/-! ### a torn tail is cut off at the next start -/
+
+theorem completeLen_noNL (p : Bytes) (h : '\n' ∉ p) : completeLen p = 0 := by
+  induction p with
+  | nil => rfl
+  | cons c cs ih =>
+    simp only [List.mem_cons, not_or] at h
+    have hc : ¬ c = '\n' := fun e => h.1 e.symm
+    simp [completeLen, ih h.2, hc]
+
+theorem completeLen_append_noNL (x p : Bytes) (h : '\n' ∉ p) : completeLen (x ++ p) = completeLen x := by
+  induction x with
+  | nil => simpa [completeLen] using completeLen_noNL p h
+  | cons c cs ih => simp [completeLen, ih]
+
+theorem completeLen_endsNL (x : Bytes) (h : endsNL x = true) : completeLen x = x.length := by
+  induction x with
+  | nil => rfl
+  | cons c cs ih =>
+    by_cases hcs : cs = []
+    · subst hcs
+      simp only [endsNL, ↓reduceIte, decide_eq_true_eq] at h
+      simp [completeLen, h]
+    · simp only [endsNL, hcs, ↓reduceIte] at h
+      have := ih h
+      have hpos : cs.length > 0 := List.length_pos_iff.mpr hcs
+      simp [completeLen, this, hpos]
+
+/-- **Start-up on a file with a torn tail**: the unterminated fragment is cut off, so the
+file the next life appends to ends with a newline. -/
+theorem openOn_truncates (rj : Bool) (mc : Nat) (x p : Bytes) (hx : endsNL x = true) (hp : '\n' ∉ p) (hne : p ≠ [])
+    (fs : FS) (hfs : fs.main = some (x ++ p)) :
+    (fs.applyAll (Snap.openOn rj mc fs).2).main = some x ∧ (Snap.openOn rj mc fs).1.offset = x.length := by
+  have hv : completeLen (x ++ p) = x.length := by rw [completeLen_append_noNL x p hp, completeLen_endsNL x hx]
+  have hlt : x.length < (x ++ p).length := by
+    have : p.length > 0 := List.length_pos_iff.mpr hne
+    simp; omega
+  unfold Snap.openOn
+  simp only [hfs, Option.isNone_some, Bool.and_false, Bool.false_and, Bool.false_eq_true, ↓reduceIte, Option.getD_some, hv, hlt,
+    decide_true, Bool.and_true, List.nil_append]
+  constructor
+  · simp [FS.applyAll, FS.apply, FS.get, FS.set, hfs]
+  · trivial
 
 end SerfProofs.Snapshot
